@@ -101,6 +101,16 @@ func checkOp(run *core.Run, v fam.View, ver string, exp fam.SigExpect) {
 			if !kindOK(k, want[i].Kinds) {
 				rep("parameter-schema", fmt.Sprintf("parameter %s has schema %s, the declared type maps to %v", want[i].Name, k, want[i].Kinds))
 			}
+			// a parameter written without any bounding rule is documented without bounds (whatever other
+			// parameters of the same type elsewhere in the project carry)
+			if want[i].Validate == "" || want[i].Validate == "required" {
+				sch := spec.M(spec.M(g)["schema"])
+				for _, kw := range []string{"minItems", "maxItems", "uniqueItems", "minimum", "maximum", "minLength", "maxLength", "pattern"} {
+					if v, ok := sch[kw]; ok && fmt.Sprint(v) != "false" && fmt.Sprint(v) != "0" {
+						rep("unvalidated-parameter-has-no-bounds", fmt.Sprintf("parameter %s carries %s=%v although no such rule is written for it", want[i].Name, kw, v))
+					}
+				}
+			}
 		}
 	}
 	// request body
